@@ -28,6 +28,15 @@ Theorem C38_accepted_disjoint : forall (v : raw_volume) (l : list structure),
 Proof. exact accepted_disjoint_increasing. Qed.
 Print Assumptions C38_accepted_disjoint.
 
+(* ... and for ANY actual sizes up to the declared ones (a disk may hold a min-size..size structure at any size in between,
+   structures without an offset of their own then start at the actual end of their predecessor): still no overlap.
+   So validating with the full sizes, as validateCrossVolumeStructure does, covers every admissible disk *)
+Theorem C38_accepted_disjoint_any_sizes : forall (v : raw_volume) (l : list structure) (zs : list N),
+  accept v = Some l -> Forall fits (on_disk l) -> Forall2 (fun s z => z <= s_size s) l zs ->
+  StronglySorted before (on_disk_sized l zs).
+Proof. exact accepted_disjoint_any_sizes. Qed.
+Print Assumptions C38_accepted_disjoint_any_sizes.
+
 (* the entries of the layout are the structures: same sizes, declared offsets respected, the MBR at 0 *)
 Theorem C38_layout_is_of_the_structures : forall (v : raw_volume) (l : list structure),
   accept v = Some l ->
